@@ -113,10 +113,14 @@ def map_step_files(rng, s):
                         mid += 1
                         lines.append(L(kind, nm(c), wild=wild, mapid=mid))
                         loc = 0x4100 + (mid & 0xFF)
+                        if rng.random() < 0.25:
+                            continue                      # a map that is declared for a name but has no subnets at all
                         lines.append(semlib.net(loc, "10.0.0.0/8", mid))
                         if rng.random() < 0.5:
                             lines.append(semlib.net(loc + 0x100, "10.1.0.0/16", mid))
                         lines.append(semlib.net(loc, "2001:db8::/32", mid))
+                        if rng.random() < 0.6:
+                            lines.append(semlib.net(loc, rng.choice(["8000::/1", "ff00::/8", "::/0"]), mid))   # last range point carries a location
         if not lines:
             continue
         s.file(lines, rng, tag="mapstep")
